@@ -18,7 +18,7 @@ VARIABLES desc, term, dense, pc
 vars == <<desc, term, dense, pc>>
 N == 4
 Cls == <<"Dense", "Diag", "ConstDiag", "Identity", "Toeplitz", "Chol", "Kron", "KronDiag", "KronAddedDiag", "SumKron", "AddedDiag",
-         "LRRAddedDiag", "Sum", "PsdSum", "ConstMul", "BlockDiag", "BlockInter", "BatchRepeat", "Mul", "AddedDiagI", "LRRAddedDiagI", "MixedDef", "LowRankHuge", "BlockDiagRepeat", "BlockInterRepeat", "SumBatchRepeat">>
+         "LRRAddedDiag", "Sum", "PsdSum", "ConstMul", "BlockDiag", "BlockInter", "BatchRepeat", "Mul", "AddedDiagI", "LRRAddedDiagI", "MixedDef", "LowRankHuge", "BlockDiagRepeat", "BlockInterRepeat", "SumBatchRepeat", "Interp">>
 Batches == << <<>>, <<2>> >>
 DepthOf(c) == IF c \in G_LeafClasses THEN 0 ELSE 1
 
@@ -42,7 +42,9 @@ Queries == << <<"cholesky", "lower", "LLt", TRUE>>, <<"cholesky", "upper", "RtR"
               \* contour-integral sampling with an active (rank-2 pivoted-Cholesky) preconditioner: operators K + D only
               <<"sample_ciq_precond", "k1", "cov", FALSE>>, <<"sample_ciq_precond", "k2", "cov", FALSE>>,
               \* the root left in the cache by a Lanczos inverse root from ONE supplied start vector (a Krylov-space root: compression relation)
-              <<"root_after_inv_vecs1", "none", "RRt", FALSE>> >>
+              <<"root_after_inv_vecs1", "none", "RRt", FALSE>>,
+              \* draws from c * A (the class's own _mul_constant, then its sampler): covariance c A
+              <<"sample_scaled", "k1", "cov", TRUE>>, <<"sample_scaled", "k2", "cov", TRUE>> >>
 \* thresholds: max_cholesky_size in {0, default} (sizes on both sides of it), max_root_decomposition_size in {2, default},
 \* fast covar_root_decomposition on / off
 Thresholds == { [max_chol |-> mc, max_root |-> mr, fast_root |-> fr] : mc \in {0, 800}, mr \in {2, 100}, fr \in BOOLEAN }
@@ -52,6 +54,7 @@ ThrId(t) == (IF t.max_chol = 0 THEN 1 ELSE 0) + (IF t.max_root = 2 THEN 2 ELSE 0
 ExactUnder(q, t) ==
   /\ q[4]
   /\ ~(t.max_chol = 0 /\ q[2] = "none" /\ q[1] \in {"root_decomposition", "root_inv_decomposition", "diagonalization", "sample"})
+  /\ ~(t.max_chol = 0 /\ q[1] = "sample_scaled")
   /\ ~(t.max_chol = 0 /\ q[1] = "sample_after_diag")
   \* methods that post-process a default-method decomposition inherit its (Lanczos) nature above max_cholesky_size
   /\ ~(t.max_chol = 0 /\ q[2] \in {"diagonalization", "pinverse"})
@@ -66,7 +69,7 @@ Init ==
   /\ \E ci \in 1..Len(Cls), bi \in 1..Len(Batches), qi \in 1..Len(Queries), t \in Thresholds, sd \in {1, 100000} :
        /\ ((ci + bi + qi + ThrId(t)) % NParts = Part)
        /\ (sd # 1 => Cls[ci] \in ScaledCls /\ Queries[qi][3] # "cov" /\ t.max_root = 100)
-       /\ (Tier = "quick" => IF Cls[ci] \in {"MixedDef", "LowRankHuge"} \/ Queries[qi][1] = "sample_ciq_precond" THEN TRUE ELSE IF sd = 1 THEN ((ci + qi + ThrId(t) + bi) % 3 = 0)
+       /\ (Tier = "quick" => IF Cls[ci] \in {"MixedDef", "LowRankHuge", "Interp"} \/ Queries[qi][1] = "sample_ciq_precond" THEN TRUE ELSE IF sd = 1 THEN ((ci + qi + ThrId(t) + bi) % 3 = 0)
                              ELSE (Queries[qi][2] = "pivoted_cholesky" \/ (ci + qi + ThrId(t) + bi) % 5 = 0))
        \* the mixed-definiteness batch: Cholesky-type queries on its own batch shape only
        /\ (Cls[ci] = "MixedDef" => bi = 1 /\ sd = 1 /\ Queries[qi][1] \in {"cholesky", "linalg_cholesky"} /\ t.max_chol = 800)
@@ -75,6 +78,8 @@ Init ==
               (Queries[qi][1] \in {"root_decomposition", "sample"} /\ Queries[qi][2] \in {"none", "k1", "k2"}))
        /\ (Queries[qi][1] \in {"sample_ciq", "sample_ciq_precond"} => t.max_root = 100 /\ t.max_chol = 800 /\ ~t.fast_root)
        /\ (Queries[qi][1] = "sample_ciq_precond" => Cls[ci] \in {"AddedDiag", "AddedDiagI"})
+       \* interpolated operators W K W^T (singular for fewer inducing points than rows): their own sampler only
+       /\ (Cls[ci] = "Interp" => Queries[qi][1] \in {"sample", "sample_scaled"} /\ sd = 1 /\ t.max_chol = 800)
        /\ desc = [cls |-> Cls[ci], b |-> Batches[bi], query |-> Queries[qi][1], method |-> Queries[qi][2], relation |-> Queries[qi][3],
                   exact |-> ExactUnder(Queries[qi], t), thr |-> t, id |-> (((ci * 4 + bi) * 64 + qi) * 8 + ThrId(t)) * 2 + (IF sd = 1 THEN 0 ELSE 1),
                   sden |-> sd,
